@@ -41,13 +41,13 @@ def parseThreads : Nat → List String → Option (List Thread × List String)
   | n + 1, k :: l :: a :: f :: ts => do
     -- kind letter, optionally followed by the spelling number of the code in the request ("a", "r2", …)
     let kind ← (match k.toList with
-      | 'a' :: _ => some Kind.activate | 'r' :: _ => some Kind.revoke | _ => none)
+      | 'a' :: _ => some Kind.activate | 'r' :: _ => some Kind.revoke | 'p' :: _ => some Kind.revoke | _ => none)
     let sp ← (if k.length == 1 then some 0 else (String.ofList (k.toList.drop 1)).toNat?)
     let l ← l.toNat?
     let a ← a.toNat?
     let f ← faultOf f
     let (r, ts') ← parseThreads n ts
-    pure ({ kind := kind, listener := l, laddr := a, fault := f, spell := sp } :: r, ts')
+    pure ({ kind := kind, listener := l, laddr := a, fault := f, spell := sp, poll := k.toList.head? == some 'p' } :: r, ts')
   | _, _ => none
 
 def parseEv (s : String) : Option Ev :=
@@ -126,7 +126,8 @@ def parseTup : List String → Option Tup
   | _ => none
 
 def errClasses : List String :=
-  ["missing", "notfound", "forbidden", "conflict", "expired", "badaddr", "quota", "storage", "internal"]
+  ["missing", "notfound", "forbidden", "conflict", "expired", "badaddr", "quota", "storage", "internal",
+   "seen:a0r0", "seen:a1r0", "seen:a0r1", "seen:a1r1"]
 
 def parseORes (s : String) : Option ORes :=
   if s == "rok" then some .rok
@@ -178,6 +179,7 @@ def parseObs : List String → Option Obs
 does not change. -/
 def normKind : List String → List String
   | "nodes" :: rest => "sched" :: rest
+  | "snode" :: rest => "sched" :: rest
   | "nfine" :: rest => "fine" :: rest
   | ts => ts
 
